@@ -428,12 +428,26 @@ func consumingLoopOK(prog *Program, fn *ssa.Function, header *ssa.BasicBlock, ma
 	// exits: every return inside the loop is an error return
 	ps := NewPathSim(prog)
 	ps.Havoc = true
+	// a return "inside the loop": its block is dominated by a block of the loop's body (the loop's normal exit leaves from the
+	// header and is dominated by no body block)
+	early := func(rb *ssa.BasicBlock) bool {
+		if lb[rb] && rb != header {
+			return true
+		}
+		for b := range lb {
+			if b != header && b.Dominates(rb) {
+				return true
+			}
+		}
+		return false
+	}
 	for _, sm := range ps.Run(fn) {
-		if sm.Ret == nil || !lb[sm.Ret.Block()] {
+		if sm.Ret == nil || !early(sm.Ret.Block()) {
 			continue
 		}
 		last := sm.Results[len(sm.Results)-1]
-		if errClass(sm, last) != "nonnil" {
+		lastIsErr := isErrorType(fn.Signature.Results().At(fn.Signature.Results().Len() - 1).Type())
+		if !lastIsErr || errClass(sm, last) != "nonnil" {
 			return false, "", fmt.Sprintf("the loop over the keys can end early at %s with a non-error result: which key decides depends on Go's random map order", prog.pos(sm.Ret.Pos()))
 		}
 	}
@@ -624,6 +638,8 @@ func init() {
 		checkUnorderedSources(r, prog, a, "c14")
 		r.importing = "C06"
 		checkMapKeyGuard(r, prog, a, "c06") // ordering the keys by their String() is a total order only for keys that are strings
+		r.importing = "C17"
+		checkFilter(r, prog, a, "c17") // an element error ends Execute with (nil, err): no partially filled map in visiting order
 		r.importing = ""
 		r.Technique = "census of unordered-sequence sources (MapKeys, MapRange, range over map, maps.Keys/Values) in all module functions reachable from the API; per source a shape decision: sorted-before-use by dominance (with a check that sort.Slice's less orders the very slice being sorted), single-exit-class consuming loop with commuting effects (path analysis of in-loop returns), or collect-then-sort"
 		r.Explain = "Each place where Go's random map order can enter is one rule instance and must be in a safe shape: the key slice is sorted by a call that dominates every element access, and for sort.Slice the less function captures only the sorted slice and compares the same function of elements i and j with a strict order; or the consuming loop carries no value besides the position, every return inside it is an error return, and its only effects are insertions into a map made in the same function under the entry's own key; or keys are only collected and sorted before any use. The property then follows because no result depends on which entry is visited first. NOT decided: order dependence inside pointerstructure (read, trusted); which of several element errors is reported by Filter over a map (the statement asks for the error-or-not outcome)."
